@@ -156,10 +156,16 @@ var stubAssumptions = []string{
 	"solver: z3 4.8.12 (-in), bit-vector + UF terms, no set-logic; any (error line or unknown makes the run inconclusive (exit 2)",
 	"stub fmt.Sprintf/Errorf/log.Printf: native on concrete arguments, opaque otherwise; no control flow depends on message text",
 	"stub hash/crc32 IEEE: native on concrete bytes, uninterpreted function on symbolic bytes (functional consistency only)",
-	"stub compress/zlib: real zlib on concrete bytes; stored-block codec (11 bytes overhead) on symbolic bytes; hostile deflate streams outside reach",
+	"stub compress/zlib: real zlib on concrete bytes; stored-block codec as compress/flate emits it (16 bytes overhead per 16 KiB) on symbolic bytes; hostile deflate streams outside reach",
 	"stub encoding/binary.Read/Write: big-endian field-order (de)serialisation of fixed-size values",
 	"stub time: logical clock; math/rand: successive distinct values (no table-name collisions); map iteration in insertion order",
 	"lengths of strings/slices are concrete per path (case split by the harness); bytes and integers are symbolic bit-vectors",
+}
+
+var cAssumptions = []string{
+	"C side: /repo/c/*.c (all but tests, dump.c and stack.c) and harness/cshim.c are compiled with clang-14 -O1 to LLVM IR and linked with llvm-link on every run; the IR is interpreted by engine/llir.go (byte-granular bounds-checked objects, use-after-free and double-free detection, indirect calls through the real vtables); clang's translation of C to IR at -O1 is trusted, the replay runs the natively compiled code under AddressSanitizer",
+	"C side stubs: malloc/calloc/realloc never fail; uninitialised memory reads as an arbitrary but fixed byte; strlen/strcmp/strncmp/strchr/strncpy/memcmp/bcmp/memcpy/memmove/memset by their ISO C meaning; zlib crc32 = the Go side's crc32 stub; compress2/uncompress2 = the zlib stub above (so deflate streams are byte-identical between the two sides in the model; natively each side runs its own zlib)",
+	"C side: pointers are (object, offset) pairs and are concrete per path; a pointer is never forged from symbolic bytes; symbolic array indices are case split; floating point (compress bound estimate in block_writer_finish) only on concrete values",
 }
 
 var fsAssumptions = []string{
